@@ -1,6 +1,7 @@
 import Drivers.Wire
 import Model.Ask
 import Model.Membership
+import Model.RegEvo
 
 /-!
 Shared driver code of C02 and C08 (one JSON request per line, see `Drivers/Wire.lean`).
@@ -124,7 +125,7 @@ def whyNot (d : Decl) (x : Config) : String :=
             | _ => if kindOK then "bounds" else "kind"
           some s!"{what}:{h.name}"
       else if canon h.dim = some v then go hs vs as (i + 1)
-      else some s!"inactive-value:{h.name}"
+      else some s!"inactive-not-canonical:{h.name}"
     | _, _, _, _ => none
   match go d.hps x act 0 with
   | some w => w
@@ -355,10 +356,12 @@ def guessAskEnv (freeAllowed : Bool) (c : Cbo Config) (o : RoundObs) (path : Str
       | none => .error "a boltzmann proposal is not a row of the last candidate sample"
       | some [] => .ok base
       | some (i0 :: rest) =>
-        -- a repeated index is accepted only after 100 rejected draws
-        let draws := (rest.foldl (fun (acc : List Nat × List Nat) i =>
-          if acc.2.contains i then (acc.1 ++ List.replicate 101 i, acc.2 ++ [i])
-          else (acc.1 ++ [i], acc.2 ++ [i])) ([], [i0])).1
+        -- a repeated index is accepted only once 100 draws were rejected (the counter of
+        -- rejected draws is shared by the whole batch)
+        let draws := (rest.foldl (fun (acc : List Nat × List Nat × Nat) i =>
+          if acc.2.1.contains i then
+            (acc.1 ++ List.replicate (100 - acc.2.2 + 1) i, acc.2.1 ++ [i], 100)
+          else (acc.1 ++ [i], acc.2.1 ++ [i], acc.2.2)) ([], [i0], 0)).1
         .ok { base with orders := fun _ => [[i0], draws] }
   else if path == "qLCB" then
     match s.nextX with
@@ -486,6 +489,62 @@ def handleSession (j : Json) : Except String Json := do
     ("firstN_distinct", decide firstN.Nodup),
     ("all_member", xs.all (memSpace d))]
 
+/-! ### `regevo`: replay of a RegularizedEvolution session -/
+
+def exactTable (tbl : List (Rat × Rat)) (q : Rat) : Rat :=
+  match tbl.find? (fun kv => kv.1 == q) with
+  | some kv => kv.2
+  | none => q
+
+def handleRegevo (j : Json) : Except String Json := do
+  let d ← jDecl (← field j "decl")
+  let popSize ← jNat (← field j "popSize")
+  let sampleSize ← jNat (← field j "sampleSize")
+  let rnd ← jTable (fieldD j "rnd" (Json.arr #[]))
+  let ne : NumEnv := { lg := fun q => q, pw := fun q => q, rnd := exactTable rnd }
+  let opsJ ← (← field j "ops").getArr?
+  let mut st : DH.RegEvo.St := { popSize, sampleSize, pop := [] }
+  let mut mismatch : Option String := none
+  let mut replayed : Nat := 0
+  let mut phases : List String := []
+  for oj in opsJ.toList do
+    if mismatch.isSome then break
+    let kind ← (← field oj "op").getStr?
+    if kind == "tell" then
+      let results ← jList (fun p => do
+          let a ← p.getArr?
+          match a.toList with
+          | [x, .null] => return (← jConfig x, (none : Option Rat))
+          | [x, y] => return (← jConfig x, some (← jRat y))
+          | _ => throw "bad result") (← field oj "results")
+      st := DH.RegEvo.tell st results
+    else
+      let n ← jNat (← field oj "n")
+      let fresh ← jList jConfig (fieldD oj "fresh" (Json.arr #[]))
+      let X ← jList jConfig (← field oj "X")
+      let envs ← jList (fun c => do
+          let idxs ← jList jNat (← field c "idxs")
+          let attempts ← jList (fun a => do
+              let arr ← a.getArr?
+              match arr.toList with
+              | [nm, v] => return ({ name := ← nm.getStr?, value := ← jVal v } : DH.RegEvo.Attempt)
+              | _ => throw "bad attempt") (← field c "attempts")
+          let fr ← match c.getObjVal? "fresh" with
+            | .ok (.null) => pure []
+            | .ok f => jConfig f
+            | .error _ => pure []
+          return ({ idxs, attempts, fresh := fr } : DH.RegEvo.ChildEnv)) (fieldD oj "children" (Json.arr #[]))
+      phases := phases ++ [if st.pop.length < st.popSize then "random" else "evolution"]
+      match DH.RegEvo.ask ne d st n fresh envs with
+      | .error e => mismatch := some s!"ask({n}): model raises {reprStr e}"
+      | .ok Xm =>
+        if Xm != X then
+          mismatch := some s!"ask({n}): model returns {(Json.arr (Xm.map ofConfig).toArray).compress}, implementation returned {(Json.arr (X.map ofConfig).toArray).compress}"
+        else replayed := replayed + 1
+  return Json.mkObj [("ok", true),
+    ("mismatch", match mismatch with | some m => Json.str m | none => Json.null),
+    ("replayed", replayed), ("phases", Json.arr (phases.map Json.str).toArray)]
+
 /-- the request handler shared by `Drivers/C02.lean` and `Drivers/C08.lean` -/
 def handle (j : Json) : Except String Json := do
   let op ← (← field j "op").getStr?
@@ -493,6 +552,7 @@ def handle (j : Json) : Except String Json := do
   | "mem" => handleMem j
   | "fin" => handleFin j
   | "fill" => handleFill j
+  | "regevo" => handleRegevo j
   | "session" => handleSession j
   | _ => throw s!"unknown op {op}"
 
